@@ -25,6 +25,7 @@
 (*  "D35" only 27 of the builtins of XSD are in the table: token, NCName,    *)
 (*        ID, QName, gYear, anySimpleType ... become a path to a type that   *)
 (*        does not exist                                                    *)
+(*  "D37" ref= without a prefix: the member carries no namespace            *)
 (*  "D23c" a user type whose local name is that of an XSD builtin (date,    *)
 (*        string, ...) is taken for the builtin                             *)
 (* With D = {} the walk is the repaired code.                               *)
@@ -53,7 +54,8 @@ MkRefField(S, f, it, p, par, inchoice, D) ==
       w == IF vec THEN "Vec" ELSE IF opt \/ (inchoice /\ "D09" \notin D) THEN "Option" ELSE "Bare"
       e == ResolveElem(S, f, it, p.ref)
   IN IF e = None THEN [xml |-> p.ref.n, attr |-> FALSE, w |-> w, target |-> [k |-> "dangling"], ns |-> "?"]
-     ELSE [xml |-> e.n, attr |-> FALSE, w |-> w, target |-> ElemTarget(S, e), ns |-> e.ns]
+     \* "D37": a reference written without a prefix (default namespace) gets no namespace at all: the member is unqualified
+     ELSE [xml |-> e.n, attr |-> FALSE, w |-> w, target |-> ElemTarget(S, e), ns |-> IF "D37" \in D /\ p.ref.p = "" THEN "unqualified" ELSE e.ns]
 
 MkAttr(S, f, it, a, D) ==
   [xml |-> a.n, attr |-> TRUE, w |-> IF a.use = "req" THEN "Bare" ELSE "Option",
